@@ -126,6 +126,9 @@ class C07(Property):
             d["check_size"] = True
             d["allow_scroll"] = False
             if d["api"] == "new":
+                # the attributes in force when draw() is called: cooked, ECHO already off (a TUI), non-canonical, odd
+                # VMIN/VTIME — "exactly as before the call" must hold for each
+                d["tattr"] = rng.choice(c06.FakeTermios.VARIANTS)
                 d["hook"] = rng.choice(["", "", ctl.SGR_DEFAULT, ctl.ST * 2])
                 d["clear"] = rng.choice(["", "", ctl.KITTY_DELETE_CURSOR])
             d = c06.finish_geometry(rng, d)
@@ -145,6 +148,10 @@ class C07(Property):
             # thorough: EVERY k before the clean-up; quick: every k of short draws, else the first 6, the last 5
             # and a sample; both exception kinds; several cut offsets of each write (0, inside the first token,
             # somewhere, inside the last token)
+            # the uninterrupted draw: attributes, finalisation, frame and size must be as before here too
+            dd = dict(d)
+            dd["plan"] = None
+            yield Case("", dd, f"{d['api']}-{d['style']}-{'anim' if anim else 'still'}-nofault", True)
             ks = list(range(nbody))
             if not big and nbody > 16:
                 ks = sorted(set(ks[:6] + ks[-5:] + rng.sample(ks, 5)))
@@ -177,6 +184,9 @@ class C07(Property):
         d["_stream"] = r.stream.getvalue()
         d["_outcome"] = r.outcome
         d["_attrs"] = r.ft.summary() if r.ft is not None else "7,1"
+        d["_attrs_restored"] = r.ft.restored() if r.ft is not None else True
+        d["_attrs_final"] = repr(r.ft.attrs) if r.ft is not None else ""
+        d["_attrs_initial"] = repr(r.ft.initial) if r.ft is not None else ""
         d["_finalized"], d["_seek_ok"], d["_size_ok"] = r.finalized, r.seek_ok, r.size_ok
         fired = c06.INJ.fired
         d["_fired"] = list(fired[::2]) if fired else None
@@ -212,12 +222,14 @@ class C07(Property):
             return Failure(f"chunked/{where}/{fired[0] if fired else ''}",
                            f"a kitty chunked transmission (m=1) is left open: no m=0 command follows the cut; {at}")
         if not vis:
-            return Failure(f"hidden/{where}/{fired[0] if fired else ''}/k{min(d['plan']['k'], 2)}",
+            return Failure(f"hidden/{where}/{fired[0] if fired else ''}/k{min(d['plan']['k'], 2) if d['plan'] else 'none'}",
                            f"the cursor is left hidden; {at}")
         if d["api"] == "old" and not sgr_default:
             return Failure(f"sgr/{where}", f"text attributes are not reset; {at}")
-        if d["_attrs"] != "7,1":
-            return Failure(f"attrs/{where}", f"terminal attributes not restored ({d['_attrs']}); {at}")
+        if d["_attrs"] != "7,1" or not d.get("_attrs_restored", True):
+            return Failure(f"attrs/{where}/{d.get('tattr', 'default')}",
+                           f"terminal attributes are not exactly as before the call: before {d.get('_attrs_initial')}, "
+                           f"after {d.get('_attrs_final')}; {at}")
         if d["api"] == "new" and d["_finalized"] != 1:
             return Failure(f"finalize/{where}", f"render data not finalized; {at}")
         if not d["_seek_ok"]:
